@@ -12,7 +12,6 @@ MISS_NOTES = {
     "C06/where-fast-path-float-le-int-excludes-equal": "C06's worlds have no DOUBLE columns; the boundary-literal atoms added to the single-table generator let the model-based checks (see cross results) see it",
     "C11/insert-trigger-undo-off-by-one": "C11 does not generate triggers (its design note leaves trigger-induced failures to C34); C34 detects the same change (see cross results and C34/failed-trigger-undo-keeps-first-row-of-statement)",
     "C12/update-composite-fk-any-column-matches": "not reached: the generator builds single-column FOREIGN KEYs only (stated in the check's assumptions)",
-    "C18/binary-decimal-scale-dropped": "not reached: DECIMAL(p,s) is not among the generated column types (NUMERIC(p,s) is)",
     "C20/unary-operand-skips-depth-guard": "not reached: with the guard bypassed for one node kind the stack of the verif-profile build only overflows beyond two million nested nodes, more than the 64 KiB-bounded crafted inputs hold (the seeding agent needed a 32 MiB stack and a debug build)",
 }
 
@@ -72,7 +71,7 @@ out.append("# Sensitivity: seeded changes vs. the checks\n")
 out.append("Independent sub-agents were given only the text of a few properties and a scratch git worktree of /repo (nothing from /verif) and asked for realistic changes that break a property while the touched crates still compile and their tests still pass, each with a demonstration. "
            "The changes are kept under `seeded/<ID>/<name>/` (`patch.diff`, `demonstration.md`, `meta.json`). `tools/eval_seeded_isolated.sh` applies each patch to a scratch worktree, rebuilds the harness against it and runs the *quick* tier of that property's check; a change counts as detected when the check exits 1 with a VIOLATION line.\n")
 out.append(f"**{len(items)} seeded changes, {det} detected by the quick tier of their own property's check** ({first} of them at their first evaluation; the others after the generators were widened in response to the miss — the round column says when a change was first detected; changes arrived in batches, those for C03/C04/C17-C32 during rounds 2 and 3). The rest are listed with the reason.\n")
-out.append("Rounds: 1 = checks as first built; 2 = after fixing the vacuous index mirror in C15 and adding REPLACE / ON DUPLICATE KEY UPDATE, composite UNIQUE, FOREIGN KEYs in C15, multi-column UPDATE OF, correlation-last EXISTS, OR-of-ANDs join filters and IN in GROUP BY position; 3 = after self-referencing and double FOREIGN KEYs in C12, constant and cross-type WHERE atoms, multi-chunk tables in C04, extra literal/type forms in C23, quote-containing literals in C25, view aliases in C32; 4 = after 1000-3000 row tables in the quick tier of C03/C07 (built from a repeated block of generated rows, since the first version exhausted the choice tape and produced constant columns) and a second UNIQUE constraint; 5 = after the open findings that masked most were repaired in /repo (columnar aggregate path, set-operation ORDER BY, SIMD WHERE filter, ON DUPLICATE KEY UPDATE, two-FK and self-referencing referential actions): only the changes of the affected properties (C01, C03-C07, C10-C12, C15, C30, C32) were evaluated again, against the repaired tree.\n")
+out.append("Rounds: 1 = checks as first built; 2 = after fixing the vacuous index mirror in C15 and adding REPLACE / ON DUPLICATE KEY UPDATE, composite UNIQUE, FOREIGN KEYs in C15, multi-column UPDATE OF, correlation-last EXISTS, OR-of-ANDs join filters and IN in GROUP BY position; 3 = after self-referencing and double FOREIGN KEYs in C12, constant and cross-type WHERE atoms, multi-chunk tables in C04, extra literal/type forms in C23, quote-containing literals in C25, view aliases in C32; 4 = after 1000-3000 row tables in the quick tier of C03/C07 (built from a repeated block of generated rows, since the first version exhausted the choice tape and produced constant columns) and a second UNIQUE constraint; 5 = after the open findings that masked most were repaired in /repo (columnar aggregate path, set-operation ORDER BY, SIMD WHERE filter, ON DUPLICATE KEY UPDATE, two-FK and self-referencing referential actions): only the changes of the affected properties (C01, C03-C07, C10-C12, C15, C30, C32) were evaluated again, against the repaired tree; DataType::Decimal columns (reachable through the table API only) were added to C18, and committed history replays are executed eight times because referential actions walk a HashMap of tables.\n")
 out.append("| property | seeded change | slip | outcome | round | signature reported / note |")
 out.append("|---|---|---|---|---|---|")
 for pid, name, kind, outcome, rnd, sig, key, _first in items:
@@ -87,6 +86,6 @@ out.append("")
 out.append("## What the misses changed\n")
 out.append("* **C15** was the important one: all four seeded index defects passed at first. The comparison of user-defined indexes with a rebuild called `rebuild_indexes(\"t0\")` while the registry stores the table as `T0`, so the rebuild was a no-op and the comparison vacuous for `CREATE INDEX` indexes (the PRIMARY KEY / UNIQUE hash-index part was effective). Fixed; the unchanged tree stayed silent and all index mutants are detected.")
 out.append("* Generator gaps closed because a seeded change (or a probe of the unchanged tree by a seeding agent) pointed at them: REPLACE and ON DUPLICATE KEY UPDATE (found REPLACE without index maintenance, fixed; upserts without constraint validation, recorded), composite UNIQUE in non-table column order (found a real defect: such constraints were never enforced, fixed), self-referencing and double FOREIGN KEYs (two real defects recorded), `pk = 2.0` and `WHERE 1` in UPDATE/DELETE (two real defects fixed), IN-subquery through the index with extra WHERE conjuncts (real defect fixed), multi-chunk parallel hash build, view aliases, literal forms with multi-byte bodies, ENUM/SET prefixes.")
-out.append("* Masking by open findings was the largest single cause of misses after round 3 (a second defect in the region of a recorded one has the same signature). Rather than splitting signatures further, the masking findings were repaired in /repo where that was small and safe (round 5); the three C03 changes and the self-reference change of C12 are detected since.\n* Misses that remain: shapes deliberately outside the generated domain (composite FOREIGN KEYs, DECIMAL columns), a stack-depth condition that the bounded inputs cannot reach in this build profile, and two changes that only the neighbouring property's check sees (see cross results).")
+out.append("* Masking by open findings was the largest single cause of misses after round 3 (a second defect in the region of a recorded one has the same signature). Rather than splitting signatures further, the masking findings were repaired in /repo where that was small and safe (round 5); the three C03 changes and the self-reference change of C12 are detected since.\n* Misses that remain: shapes deliberately outside the generated domain (composite FOREIGN KEYs), a stack-depth condition that the bounded inputs cannot reach in this build profile, and two changes that only the neighbouring property's check sees (see cross results).")
 open(os.path.join(ROOT, "SENSITIVITY.md"), "w").write("\n".join(out) + "\n")
 print(f"{len(items)} changes, {det} detected")
